@@ -15,3 +15,7 @@ def run(rep: Report, repo: Repo, tier: str) -> None:
     writer_rules.rule_directive_order(rep, repo, "C20-R5")
     writer_rules.rule_paragraph(rep, repo, "C20-R6")
     writer_rules.rule_values_verbatim(rep, repo, "C20-R7")
+    # "re-framed when the title is changed": the heading is always the first element and no other copy of it is kept that
+    # could come back (clear() keeps document[0], it does not restore a cached heading)
+    from . import misc_rules
+    misc_rules.rule_writer_first_element(rep, repo, "C20-R8")
